@@ -31,8 +31,9 @@ BATCH_RATES = {
     "K5": (0.28, 0.05, 0.03, 0.00, 0.00),   # scripted: one op of the alphabet - produce; disturb; re-ask
     "K6": (0.10, 0.00, 0.00, 0.00, 0.00),   # scripted: one table, one fault at a chosen point, then re-ask
     "K7": (0.00, 0.00, 0.00, 0.00, 0.00),   # scripted: tour over many tables with re-visits (cache capacity / key mix-ups)
+    "K8": (0.20, 0.00, 0.00, 0.00, 0.00),   # scripted: one op hammered 20-150 times (same request / many requests), then re-ask
 }
-SCRIPTED = ("K5", "K6", "K7")
+SCRIPTED = ("K5", "K6", "K7", "K8")
 
 
 def splitmix64(*parts):
@@ -196,6 +197,8 @@ class Generator:
             self._script_k6(job["table"], job["fault"])
         elif batch == "K7":
             self._script_k7()
+        elif batch == "K8":
+            self._script_k8(job["op"], job.get("kmode", "same"))
 
     # ------------------------------------------------------------------ configuration (swarm)
     def _draw_config(self):
@@ -314,8 +317,15 @@ class Generator:
                 strs[k] = r.choice([strs[k].lower(), strs[k][:-1], strs[k] + "X", strs[k].replace("I", "_", 1)])
             data = self.lit(Lt.lst(strs))
         elif style < 0.85:
-            dt = r.choice(["int8", "int8", "int64", "bool", "uint8", "float64"])
-            items = [Lt.nd(R, dt), Lt.nd(S, dt)] if dt != "float64" else [Lt.ndf(R), Lt.ndf(S)]
+            dt = r.choice(["int8", "int8", "int64", "bool", "uint8", "float64", "int8", "int8", "int64", "bool", "uint8", "float64",
+                           "complex128", "float32", "int16", "complex64"])
+            if dt in ("complex128", "complex64", "float32"):
+                # rare argument classes (output of np.linalg / scipy / a GPU array): one of the two matrices, or both
+                items = [Lt.ndx(R, dt), Lt.ndx(S, dt) if r.random() < 0.5 else Lt.nd(S, "int8")]
+                if r.random() < 0.3:
+                    items = [Lt.nd(R, "int8"), Lt.ndx(S, dt)]
+            else:
+                items = [Lt.nd(R, dt), Lt.nd(S, dt)] if dt != "float64" else [Lt.ndf(R), Lt.ndf(S)]
             if r.random() < 0.6:
                 items.append(Lt.nd(ph, r.choice(["int8", "int64"])))
             data = self.lit(Lt.tup(items))
@@ -387,8 +397,11 @@ class Generator:
 
     def need_mat(self, rows, cols, dtype=None):
         r = self.rng
-        return self.lit(Lt.nd([[r.randrange(2) for _ in range(cols)] for _ in range(rows)],
-                              dtype or r.choice(["int8", "int64", "uint8"])))
+        rows_ = [[r.randrange(2) for _ in range(cols)] for _ in range(rows)]
+        dt = dtype or r.choice(["int8", "int64", "uint8", "int8", "int64", "uint8", "bool", "float64", "complex128", "float32"])
+        if dt in ("float64", "complex128", "float32"):
+            return self.lit(Lt.ndx(rows_, dt))
+        return self.lit(Lt.nd(rows_, dt))
 
     def _counts(self, nbits, k=None):
         """outcome dictionary as a backend returns it; sometimes with register-separating blanks in the keys (legal),
@@ -1315,6 +1328,85 @@ class Generator:
         for t in plan:
             key = f"{r.choice(kinds)}{t[0]}-{t[1]}"
             self.queue.append(lambda ex, key=key: self.gen_sibling(ex, key))
+
+    def _script_k8(self, opname, mode):
+        """One op of the alphabet HAMMERED: what counters, thresholds, hit statistics, periodic clean-ups and caches
+        that change representation when they grow need in order to show (nothing of the kind exists on the pinned
+        tree; a change that adds one is otherwise only met by the rare long random run).
+        mode "same": the same request 20-150 times (results dropped as a real caller would), neighbours in between;
+        mode "many": 20-120 different requests of the op's family, then the earliest ones again.
+        Then the usual disturb / re-ask rounds on the op."""
+        r = self.rng
+        fam = opname.split(".")[0]
+        self.cfg["families"] = sorted(set(self.cfg["families"]) | {fam})
+        self.cfg["p_invalid"] = 0.0 if mode == "same" else self.cfg["p_invalid"] * 0.3
+        self.cfg["length"] = 0
+        n = (self._job or {}).get("n") or r.choice([2, 3, 4])
+        heavy = fam == "tomo"
+        if heavy:
+            n = min(n, 3)
+        if fam == "layer":
+            n = min(n, 5)
+        self.cfg["ns"] = [n]
+        self.cfg["conns"] = {n: r.sample(VALID[n], min(len(VALID[n]), r.choice([1, 2, 3])))}
+        self.cfg["groups"] = {n: [Lt.random_group(r, n) for _ in range(r.choice([1, 2, 3, 6]))]}
+        top = 30 if heavy else (60 if n >= 5 else 150)
+        N = r.choice([r.randint(20, 34), r.randint(35, 70), r.randint(64, 130), r.randint(100, 150)])
+        N = max(20, min(N, top))
+        self.cfg["k8_n"] = N
+        for pre_op in PREREQ.get(opname, []):
+            self.queue.append(self._reach(pre_op))
+
+        def drop(sid):
+            return {"id": self._id(), "kind": "drop", "ref": sid}
+
+        def same(ex):
+            steps = self._reach(opname)(ex)
+            hit = [st for st in steps if st["kind"] == "call" and st["op"] == opname]
+            if not hit:
+                self.script_note = "unreachable"
+                return []
+            self.script_note = "reached"
+            call = hit[-1]
+            out = list(steps)
+            nb_at = set(r.sample(range(1, N), min(3, N - 1)))
+            last = call
+            for k in range(1, N):
+                again = dict(call)
+                again["id"] = self._id()
+                out.append(again)
+                if k < N - 1:
+                    out.append(drop(again["id"]))
+                if k in nb_at:
+                    out += self._neighbour_calls(call)
+                last = again
+            return out + [self._after_call(last, rounds=2)]
+
+        def many(ex):
+            first = []
+            out = []
+            self.cfg["p_reuse"] = r.choice([0.0, 0.1, 0.3])     # many DIFFERENT requests
+            for k in range(N):
+                def one(ex2, k=k):
+                    steps = (self._reach(opname, tries=60)(ex2) if self.rng.random() < 0.7 else []) or self.gen_call(ex2, fam)
+                    calls = [st for st in steps if st["kind"] == "call"]
+                    if calls and len(first) < 4:
+                        first.append(calls[-1])
+                    extra = [drop(c["id"]) for c in calls[-1:]] if len(first) >= 4 and self.rng.random() < 0.8 else []
+                    return steps + extra
+                out.append(one)
+
+            def revisit(ex2):
+                again = []
+                for c in first:
+                    a = dict(c)
+                    a["id"] = self._id()
+                    again.append(a)
+                hit = [c for c in again if c["op"] == opname]
+                self.script_note = "reached" if hit else "unreachable"
+                return again + ([self._after_call(hit[-1], rounds=2)] if hit else [])
+            return out + [revisit]
+        self.queue.append(same if mode == "same" else many)
 
     def _script_k6(self, table, fault):
         """One table, cold; one fault at a chosen point of the call that loads it; then ask again (same
